@@ -67,6 +67,8 @@ def check_protocol(impl, model, path, fname, seed, nedits):
     lf = [x.split(',') for x in ff[4].split(':') if x]
     if [x[:2] for x in lf] != li or any(x[2:] != ['-1', '-1'] for x in lf):
         return 'lrefs not restored: before %s after %s' % (fi[4], ff[4]), d
+    if ff[5] != fi[5] or ff[6] != fi[6] or '!' in ff[6]:
+        return 'register tables not restored (name.number of every var and global var): before %s after %s' % (fi[6], ff[6]), d
     if d['readd'] != 'ok':
         return 'registers created during generation are still in the function tables after restore', d
     if m.get('closed') != '1':
